@@ -88,7 +88,7 @@ class BlockErrorRate(BaseMetric):
             # Treat each row as a block
             return data.reshape(batch_size, 1, -1)  # Shape: [batch_size, 1, elements_per_row]
 
-        elements_per_batch_item = torch.prod(torch.tensor(remainder_dims)).item()
+        elements_per_batch_item = int(torch.prod(torch.tensor(remainder_dims)).item())
         if elements_per_batch_item % self.block_size != 0:
             raise ValueError(f"Total elements per batch item ({elements_per_batch_item}) must be divisible by block_size ({self.block_size})")
 
